@@ -268,9 +268,9 @@ func (m *modeler) mangleOne(sp ManglerSpec, f *mfield, top bool) ([]*mfield, err
 				return nil, errPre{"flatten needs nil-able fields"}
 			}
 			nf := f
+			nf.tags[sp.Tag] = encodeComps(sp.Enc, m.tagComps(sp.Tag, f))
 			nf.anon = false
 			nf.nameKnown = false
-			nf.tags[sp.Tag] = encodeComps(sp.Enc, m.tagComps(sp.Tag, f))
 			nf.tags["dialsfieldpath"] = tagVal{}
 			return []*mfield{nf}, nil
 		}
@@ -414,7 +414,6 @@ func (m *modeler) flattenStruct(sp ManglerSpec, names []nameComp, comps []comp, 
 			continue
 		}
 		nf := c
-		nf.anon = false
 		nf.choices = cch
 		var b strings.Builder
 		nf.nameKnown = true
@@ -427,6 +426,7 @@ func (m *modeler) flattenStruct(sp ManglerSpec, names []nameComp, comps []comp, 
 		nf.wordsKnown, nf.words = false, nil
 		nf.tags[sp.Tag] = encodeComps(sp.Enc, cc)
 		nf.tags["dialsfieldpath"] = tagVal{}
+		nf.anon = false
 		out = append(out, nf)
 	}
 	return out
